@@ -573,6 +573,11 @@ DnsMessage::decodeNameWithLoopDetection(const std::uint8_t *data, std::size_t of
   std::size_t originalOffset = offset;
   bool jumped = false;
   std::size_t totalLength = 0;
+  // A name has at most 127 labels, so a well-formed name never needs more pointer hops than
+  // that. Without a bound, a message made of a long pointer chain plus many names that point at
+  // its head costs (chain length x names) steps: seconds of CPU for one 64 KB response.
+  constexpr std::size_t maxCompressionJumps = 128;
+  std::size_t jumps = 0;
 
   while (offset < size)
   {
@@ -604,6 +609,12 @@ DnsMessage::decodeNameWithLoopDetection(const std::uint8_t *data, std::size_t of
                                 std::to_string(pointer));
       }
       visitedPointers.insert(pointer);
+
+      if (++jumps > maxCompressionJumps)
+      {
+        throw DnsParseException("Too many compression pointers in one name (max " +
+                                std::to_string(maxCompressionJumps) + ")");
+      }
 
       offset = pointer;
       continue;
